@@ -4,13 +4,19 @@ M1: MC_TMSym - (a) the symmetry group of the projection (latitude reflection, lo
     wraps of lon / lon0) as a state machine whose generators act on inputs and, by the documented rules, on outputs; TLC
     explores the Cayley graph and checks the homomorphism invariant; (b) the sphere lattice (f = 0, a = 180/pi, dyadic k0):
     central meridian and its far side, meridians +-90, equator, poles at +-1 ulp of the critical meridians, with the
-    lattice oracle itself checked for the group symmetries and for Reverse o Forward.
+    lattice oracle itself checked for the group symmetries and for Reverse o Forward; (c) the branch point of the exact form
+    (lat = 0, lon - lon0 = 90 (1 - e)  <->  x = k0 a (K' - E'), y = 0) reached through every reflection at -1/0/+1 ulp on the
+    geographic side and at -6..+6 ulp of the easting on the grid side, for the configurations of the driver's tables; (d) the
+    constructor family (defaulted arguments, inspectors, delegation TransverseMercator(exact) = TransverseMercatorExact).
 M2: every group element is applied to base samples on TransverseMercator, TransverseMercator(exact) and
     TransverseMercatorExact; every lattice vector is executed (Forward and Reverse).
 M3: Trace_TMSym validates the lattice lines exactly and the laws of the property on seeded random records with the documented
     tolerances: T1 inverse pair, T2 series = exact = independent order-30 Krueger evaluation, T3 symmetry group, T4 central
     meridian = meridian distance, T5 Cauchy-Riemann / k / gamma by finite differences, T6 UTM() singletons, poles,
-    extendp domain."""
+    extendp domain, agreement of the overloads without gamma / k, and a sampler of the grid plane over the whole documented
+    domain of Reverse (rxy: Forward o Reverse, standard = extended class on the strip, series = exact).  Records of the lower
+    extended region are written as a strict line (known finding tmx-ext-lower) and a coarse line (documented bounds times the
+    conditioning factor k / k0, kf none)."""
 import collections
 import json
 
@@ -22,7 +28,8 @@ LEVEL_TEXT = ('TLA+ model of the symmetry group of the transverse Mercator proje
               'critical meridians), both model-checked by TLC; every group element and lattice vector is replayed on TransverseMercator '
               '(series, exact=true) and TransverseMercatorExact and validated by TLC; the laws of the property (mutual inverses, series = '
               'exact = order-30 Krueger evaluation from the documentation, central meridian = meridian arc, Cauchy-Riemann with k and '
-              'gamma, poles, extendp domain, UTM() singletons) are validated on seeded random records over 14 ellipsoids (prolate, sphere, '
+              'gamma, poles, extendp domain, UTM() singletons, overloads without gamma / k, grid-plane sampler of Reverse, branch '
+              'point and constructor-family lattices) are validated on seeded random records over 14 ellipsoids (prolate, sphere, '
               'oblate to f = 0.1), 5 radii and 6 scale factors with the documented 5 nm / 8 nm, 6e-14 / 7e-14 bounds.')
 DESIGN_REF = 'DESIGN.md section 4, C06'
 LEVEL_NOTE = ('Trusted: TLC, TMSym.tla, the long-double textbook formulas of drv_tm.cpp (closed-form geodetic->cartesian chord, meridian '
@@ -31,7 +38,11 @@ LEVEL_NOTE = ('Trusted: TLC, TMSym.tla, the long-double textbook formulas of drv
               'accuracy of the exact form beyond the convergence region of the order-30 series (near the branch point, far east) rests '
               'on the inverse pair, the finite-difference definition laws and the symmetry group only. Named guards (notes/C06.md): '
               'Series35, FarSide2, EquatorFarSide, PoleConditioning, BranchPoint, InImage. Two genuine defects are NOT guarded: the strict laws reject them and '
-              'known_findings.json matches them by input class (kf = tmx-gamma-nearpole, tmx-ext-lower). '
+              'known_findings.json matches them by input class (kf = tmx-gamma-nearpole, tmx-ext-lower); records of the lower extended '
+              'region are written twice, a strict line (kf tmx-ext-lower, plain bounds) and a coarse line (kf none: the bounds times '
+              'the conditioning factor k / k0, documented image rectangles and scale < 2^48 north of -75 degrees), so that other defects '
+              'in that region are still reported. A third input class, kf = tmx-rev-bigf (exact Reverse does not converge for f = 0.1 on '
+              'a band of the grid plane just beyond eta = 1.25 (K\' - E\')), is labelled by the grid-plane sampler and left rejecting. '
               'The documented convergence accuracy (2e-15") is unattainable in double precision; the scale bound is used for gamma. '
               'tools/TransverseMercatorProj is not exercised.')
 TECHNIQUE = 'TLA+ group / lattice model + TLC enumeration, spec-to-code replay, TLC trace validation'
@@ -39,7 +50,8 @@ TECHNIQUE = 'TLA+ group / lattice model + TLC enumeration, spec-to-code replay, 
 RES = {'cmp': ['so', 'sog', 'sok', 'rso', 'rsog', 'rsok', 'eo', 'eog', 'eok', 'reo', 'reog', 'reok', 'se', 'seg', 'sek'],
        'rt': ['frd', 'frg', 'frk', 'rfd', 'rfg', 'rfk'], 'cm': ['xq', 'gq', 'kq', 'yq', 'ym'],
        'pl': ['xq', 'yq', 'ym', 'gq', 'kq', 'rp', 'rk'], 'cr': ['cr1', 'cr2', 'mk', 'rg'],
-       'sym': ['fd', 'fg', 'fk', 'rd', 'rg', 'rk'], 'ext': ['qd', 'qg', 'qk']}
+       'sym': ['fd', 'fg', 'fk', 'rd', 'rg', 'rk'], 'ext': ['qd', 'qg', 'qk'],
+       'bp': ['xq', 'yq', 'gq', 'kq', 'frd'], 'bpr': ['rp', 'rfd'], 'rxy': ['cd', 'cg', 'ck', 'xd', 'sd']}
 TERR = (1, 2, 3, 4, 5)
 
 
@@ -61,15 +73,30 @@ def calibrate(ctx, traces):
                     continue
                 cls, fi = r.get('cls', 0), r.get('fi', 0)
                 kinds['%s.cls%d' % (e, cls)] += 1
+                if r.get('part') == 'coarse':       # lower extended region, coarse line: counted per conditioning factor, no maxima
+                    kinds['%s.coarse.kl%s' % (e, '<=15' if -99 < r.get('kl', -99) <= 15 else '>15(vacuous position bound)')] += 1
+                    continue
+                if e == 'bpr' and r.get('hit'):
+                    kinds['bpr.grid-point-is-library-K-E'] += 1
+                if e == 'bp':
+                    kinds['bp.side%+d%s' % (r['side'], '' if r['xct'] else '.rounded')] += 1
+                    if r['el'][3] != 0 or not r['xct']:
+                        continue
+                if e == 'rxy':
+                    kinds['rxy.' + ('image-point' if r['las'] >= 100 else 'continuation' if r['las'] <= -100 else 'equator')] += 1
+                    if r.get('cx'):
+                        kinds['rxy.strip-agreement'] += 1
+                    if r['las'] < 100:
+                        continue
                 if r.get('kf', 'none') != 'none':
                     kinds['%s.kf=%s' % (e, r['kf'])] += 1
                     continue
-                if e in ('cmp', 'rt', 'cr', 'sym') and cls == 0 and r['ang'] > 35000000:
+                if e in ('cmp', 'rt', 'cr', 'sym', 'rxy') and cls == 0 and r['ang'] > 35000000:
                     kinds[e + '.series-beyond-35deg(guard)'] += 1
                     continue
                 if e == 'cmp' and r['otr'] > 10:
                     kinds['cmp.oracle-not-converged(guard)'] += 1
-                if fi not in TERR or abs(r['latq']) > 89000000 or r['sing'] < 1000000:
+                if fi not in TERR or abs(r['latq']) > 89000000 or (r['sing'] < 1000000 and e not in ('bp', 'bpr')):
                     continue
                 if e == 'cr' and not (abs(r['latq']) <= 88000000 and (abs(r['latq']) >= 5000 or abs(r['lamq']) < 45000000 or cls >= 3)):
                     continue
@@ -80,6 +107,8 @@ def calibrate(ctx, traces):
                     if k not in r or r[k] > 2000000000:
                         continue
                     if e == 'cmp' and (r['otr'] > 10):
+                        continue
+                    if e == 'rxy' and k == 'sd' and (r['ang'] > 35000000 or fi not in TERR):
                         continue
                     if e == 'rt' and k.startswith('rf') and cls in (1, 2) and not (abs(r['latq']) >= 100 or abs(r['lamq']) < 45000000):
                         continue
@@ -102,8 +131,8 @@ def run(ctx):
 
     stride = 3 if ctx.quick else 1
     base = ('INIT Init\nNEXT Next\nCONSTANTS Part = "%s" NChunks = 16 Stride = %d\n'
-            'INVARIANTS HomInv SphInv RevInv Emit\nCHECK_DEADLOCK FALSE\n')
-    parts = [(p, base % (p, stride)) for p in ('grp', 'sl', 'slr')]
+            'INVARIANTS HomInv SphInv RevInv BpInv CfgInv Emit\nCHECK_DEADLOCK FALSE\n')
+    parts = [(p, base % (p, stride)) for p in ('grp', 'sl', 'slr', 'bp', 'bpr', 'cfg')]
     nrec = 48000 if ctx.quick else 2000000
     rows, traces = vlib.lattice_pipeline(ctx, 'MC_TMSym', parts, to_rows, 'drv_tm', ['replay'], ['record', ctx.seed, nrec],
                                          'Trace_TMSym', flavour_record=None if ctx.quick else 'san', min_vectors=5000)
@@ -115,7 +144,9 @@ def run(ctx):
 RULE = ('vectors enumerated by TLC from MC_TMSym: all 200 elements of the symmetry group (8 reflections x wraps of lon and lon0 in -2..2), '
         'each applied by the driver to base samples (generic, central meridian, equator, pole) on three classes; sphere-lattice Forward '
         'vectors (integer latitudes x critical meridians 0, +-90, +-180 at -1/0/+1 ulp x (lon0, wrap) pairs x dyadic k0, plus a 15-degree '
-        'sweep) and Reverse vectors (x = 0, y = -180..180 at -1/0/+1 ulp); plus seeded random law records (cmp rt cm cr pl ext utm). '
+        'sweep) and Reverse vectors (x = 0, y = -180..180 at -1/0/+1 ulp); branch-point vectors of the exact form (configuration x class '
+        'x reflection x ulp offset, geographic and grid side); constructor-family vectors (class x configuration x sample); plus '
+        'seeded random law records (cmp rt cm cr pl ext utm rxy bp bpr). '
         'distinct_nontrivial = distinct vectors.')
 TRUSTED = ['TLC', 'TMSym.tla', 'drv_tm.cpp (long-double chord distance, meridian arc quadrature, order-30 Krueger series from '
            'doc/tmseries30.html, AGM elliptic integrals; quantisation of residuals)']
